@@ -18,3 +18,8 @@ package otlp
 //@   trusted
 //@   modifies everything
 //@   preserves otlp.Backend
+// SendMetricsAsync's per-timer closure (C04): the cumulative-bucket option allocates len(buckets)-1 bounds, so it is
+// only ever built from a histogram with at least one bucket (an empty, non-nil bucket map would panic the flush).
+//@ func (*Backend).SendMetricsAsync$5
+//@   callsite WithHistogramDataPointCumulativeBucketValues requires len(buckets) >= 1
+//@   modifies everything
